@@ -137,18 +137,15 @@ theorem engineValidate_precedence (r : Dbl) (q : QSpec) :
   cases imagingTest r q <;> cases tbwTest q <;> cases bandTest q <;> cases precisionTest q <;>
     cases notPositiveTest r <;> cases tooLargeTest r <;> cases phaseTest q <;> simp
 
-/-- a two-sided range test `lo > x || x > hi` that does not fire means `lo <= x <= hi`, or `x` is NaN -/
-theorem range_of_test_false (lo hi x : Dbl) (hlo : lo.isNaN = false) (hhi : hi.isNaN = false)
-    (h : (gt lo x || gt x hi) = false) : x.isNaN = true ∨ (le lo x = true ∧ le x hi = true) := by
-  cases hx : x.isNaN
-  · right
-    simp only [Bool.or_eq_false_iff, gt] at h
-    exact ⟨le_of_lt_false lo x hlo hx h.1, le_of_lt_false x hi hx hhi h.2⟩
-  · exact Or.inl rfl
+/-- a two-sided range test `!(lo <= x && x <= hi)` that does not fire means `lo <= x <= hi` -/
+theorem range_of_test_false (lo hi x : Dbl) (h : (!(le lo x && le x hi)) = false) : le lo x = true ∧ le x hi = true := by
+  cases h1 : le lo x <;> cases h2 : le x hi <;> simp_all
 
-theorem test_false_of_range (lo hi x : Dbl) (h1 : le lo x = true) (h2 : le x hi = true) : (gt lo x || gt x hi) = false := by
-  simp only [Bool.or_eq_false_iff, gt]
-  exact ⟨lt_false_of_le lo x h1, lt_false_of_le x hi h2⟩
+theorem test_false_of_range (lo hi x : Dbl) (h1 : le lo x = true) (h2 : le x hi = true) : (!(le lo x && le x hi)) = false := by
+  simp [h1, h2]
+
+/-- the expression the range tests had before the NaN repair (`lo > x || x > hi`): it lets every NaN through -/
+def preRepairRangeTest (lo hi x : Dbl) : Bool := gt lo x || gt x hi
 
 /-! ## the error state machine -/
 
@@ -170,36 +167,32 @@ def stickyRet (e : ErrorKind) : Op → Ret → Prop
 theorem setIoRatio_error (s : Api) (r : Dbl) (e : ErrorKind) (h : s.error = some e) : setIoRatio s r = (s, .status (some e)) := by
   unfold setIoRatio; rw [h]
 
-theorem bothSplit_congr (s t : Api) (h1 : s.itype = t.itype) (h2 : s.otype = t.otype) : s.bothSplit = t.bothSplit := by
-  unfold Api.bothSplit; rw [h1, h2]
-
-/-- one quiet call on a resampler that holds an error (not on the split/split path): the error stays, the layout stays,
-    and the call answers the error / delivers nothing -/
-theorem step_sticky (s : Api) (e : ErrorKind) (op : Op) (h : s.error = some e) (hs : s.bothSplit = false) (hq : op.quiet = true) :
-    (step s op).1.error = some e ∧ (step s op).1.bothSplit = false ∧ stickyRet e op (step s op).2 := by
+/-- one quiet call on a resampler that holds an error: the error stays and the call answers the error / delivers nothing -/
+theorem step_sticky (s : Api) (e : ErrorKind) (op : Op) (h : s.error = some e) (hq : op.quiet = true) :
+    (step s op).1.error = some e ∧ stickyRet e op (step s op).2 := by
   cases op with
-  | setIoRatio r => simp [step, setIoRatio_error s r e h, h, hs, stickyRet]
+  | setIoRatio r => simp [step, setIoRatio_error s r e h, h, stickyRet]
   | setChannels n =>
     simp only [step, setChannels, stickyRet, and_true]
     split
-    · exact ⟨h, hs⟩
+    · exact h
     · split
-      · exact ⟨h, hs⟩
+      · exact h
       · split
-        · exact ⟨h, hs⟩
+        · exact h
         · rw [setIoRatio_error _ _ e (by exact h)]
-          exact ⟨h, hs⟩
+          exact h
   | setError x => simp [Op.quiet] at hq
   | process i o n fn =>
-    simp only [step, process, hs, stickyRet, h]
-    cases (o && i) <;> simp [h, hs]
-  | output o n fn => simp [step, output, h, hs, stickyRet]
-  | delay => simp [step, delay, h, hs, stickyRet]
+    simp only [step, process, stickyRet, h]
+    cases (o && i) <;> simp [h]
+  | output o n fn => simp [step, output, h, stickyRet]
+  | delay => simp [step, delay, h, stickyRet]
   | clear => simp [Op.quiet] at hq
-  | error => simp [step, h, hs, stickyRet]
+  | error => simp [step, h, stickyRet]
   | engine =>
     simp only [step, stickyRet, and_true]
-    split <;> exact ⟨h, hs⟩
+    split <;> exact h
 
 /-- the answers of a call sequence, paired with the calls: `R op answer` for every call -/
 inductive Answers (R : Op → Ret → Prop) : List Op → List Ret → Prop
@@ -207,15 +200,15 @@ inductive Answers (R : Op → Ret → Prop) : List Op → List Ret → Prop
   | cons {a b as bs} : R a b → Answers R as bs → Answers R (a :: as) (b :: bs)
 
 
-theorem run_sticky (ops : List Op) : ∀ (s : Api) (e : ErrorKind), s.error = some e → s.bothSplit = false →
+theorem run_sticky (ops : List Op) : ∀ (s : Api) (e : ErrorKind), s.error = some e →
     (∀ op ∈ ops, op.quiet = true) →
     (run s ops).1.error = some e ∧ Answers (stickyRet e) ops (run s ops).2 := by
   induction ops with
-  | nil => intro s e h _ _; exact ⟨h, Answers.nil⟩
+  | nil => intro s e h _; exact ⟨h, Answers.nil⟩
   | cons op ops ih =>
-    intro s e h hs hq
-    obtain ⟨h1, h2, h3⟩ := step_sticky s e op h hs (hq op (List.mem_cons_self ..))
-    obtain ⟨g1, g2⟩ := ih (step s op).1 e h1 h2 (fun o ho => hq o (List.mem_cons_of_mem _ ho))
+    intro s e h hq
+    obtain ⟨h1, h3⟩ := step_sticky s e op h (hq op (List.mem_cons_self ..))
+    obtain ⟨g1, g2⟩ := ih (step s op).1 e h1 (fun o ho => hq o (List.mem_cons_of_mem _ ho))
     simp only [run]
     exact ⟨g1, Answers.cons h3 g2⟩
 
@@ -235,9 +228,9 @@ theorem process_engine (s : Api) (i o : Bool) (n : Nat) (fn : FnObs) : (process 
   split
   · rfl
   · split
-    · split <;> rfl
+    · rfl
     · split
-      · rfl
+      · split <;> rfl
       · generalize output s o n fn = x at h
         obtain ⟨s', r⟩ := x
         cases r <;> exact h
